@@ -373,4 +373,101 @@ Section Cell.
       + rewrite cell_count_app. eapply bound_add; [exact A6|exact B6|].
         rewrite cell_value_app, cell_qty_app, A2. ring.
   Qed.
+
+  (* ---------------------------------------------------------- the daily revaluations *)
+  Lemma valuation_account_ok a' : account_ok a' = true -> account_ok (valuation_account_for a') = true.
+  Proof.
+    unfold account_ok, valuation_account_for. intros H. apply andb_true_iff in H. destruct H as [H1 H2].
+    destruct a' as [|s0 tl0]; [discriminate|]. cbn [tl]. cbn [valid_account forallb] in H1, H2 |- *.
+    apply andb_true_iff in H1. destruct H1 as [_ H1]. apply andb_true_iff in H2. destruct H2 as [_ H2].
+    rewrite H1, H2. reflexivity.
+  Qed.
+
+  Lemma valuation_account_not_cell a' p :
+    account_ok a' = true -> p_acc p = valuation_account_for a' -> cellb a c p = false.
+  Proof.
+    intros Ha' Hp. apply cell_not_AL; rewrite Hp; [apply valuation_account_ok; exact Ha'|reflexivity].
+  Qed.
+
+  Lemma adjust_pair a' c' gain : account_ok a' = true ->
+    let ps := pair_build (valuation_account_for a') a' c' dec_nil gain in
+    Forall (fun p => is_zero (p_qty p) = true) ps /\
+    cell_value a c ps == (if acc_eqb a' a && str_eqb c' c then dvalue gain else 0) /\
+    cell_count a c ps = (if acc_eqb a' a && str_eqb c' c then 1 else 0)%Z.
+  Proof.
+    intros Ha'. unfold pair_build. change (is_neg dec_nil) with false. change (is_zero dec_nil) with true.
+    cbn [orb andb].
+    destruct (is_neg gain); cbv beta iota zeta.
+    - split; [repeat constructor|].
+      unfold cell_value. cbn [qsum cell_count].
+      rewrite (valuation_account_not_cell a' (mkPosting (valuation_account_for a') a' c' (neg dec_nil) (neg gain)) Ha' eq_refl).
+      unfold cellb. cbn [p_acc p_com p_val]. rewrite neg_involutive.
+      destruct (acc_eqb a' a && str_eqb c' c); split; try reflexivity; ring.
+    - split; [repeat constructor|].
+      unfold cell_value. cbn [qsum cell_count].
+      rewrite (valuation_account_not_cell a' (mkPosting (valuation_account_for a') a' c' (neg dec_nil) (neg gain)) Ha' eq_refl).
+      unfold cellb. cbn [p_acc p_com p_val].
+      destruct (acc_eqb a' a && str_eqb c' c); split; try reflexivity; ring.
+  Qed.
+
+  Fixpoint entries_qty (m : positions) : Q :=
+    match m with
+    | [] => 0
+    | x :: r => (if ematch x then dvalue (snd (snd x)) else 0) + entries_qty r
+    end.
+
+  Lemma adj_cell date prev cur pos : forall ts,
+    val_adjustments v date prev cur pos = ROk ts ->
+    (forall x, In x pos -> entry_ok x) -> (forall x, In x pos -> ematch x = true -> Pq (snd (snd x))) ->
+    cur_ok prev -> cur_ok cur ->
+    Forall zero_qty_txn ts /\
+    Qabs (cell_value a c (txns_postings ts) - (price_value cur c - price_value prev c) * entries_qty pos)
+      <= inject_Z (cell_count a c (txns_postings ts)) * eps.
+  Proof.
+    induction pos as [|[k [[a' c'] q]] rest IH]; intros ts H He Hp Hprev Hcur; cbn [val_adjustments] in H.
+    - injection H as <-. split; [constructor|]. apply bound_zero. cbn. ring.
+    - assert (He' : forall x, In x rest -> entry_ok x) by (intros x Hx; apply He; right; exact Hx).
+      assert (Hp' : forall x, In x rest -> ematch x = true -> Pq (snd (snd x))) by (intros x Hx; apply Hp; right; exact Hx).
+      pose proof (He _ (or_introl eq_refl)) as (_ & Ha' & HAL'). cbn [fst snd] in Ha', HAL'.
+      pose proof (Hp _ (or_introl eq_refl)) as HPq. cbn [snd] in HPq.
+      cbn [entries_qty]. unfold ematch at 1. cbn [fst snd].
+      (* the head entry contributes nothing *)
+      assert (Hskip : forall ts', val_adjustments v date prev cur rest = ROk ts' ->
+                (if acc_eqb a' a && str_eqb c' c then (price_value cur c - price_value prev c) * dvalue q == 0 else True) ->
+                Forall zero_qty_txn ts' /\
+                Qabs (cell_value a c (txns_postings ts') - (price_value cur c - price_value prev c) *
+                      ((if acc_eqb a' a && str_eqb c' c then dvalue q else 0) + entries_qty rest))
+                  <= inject_Z (cell_count a c (txns_postings ts')) * eps).
+      { intros ts' H' Hz. destruct (IH _ H' He' Hp' Hprev Hcur) as [F B]. split; [exact F|].
+        eapply Qle_trans; [|exact B]. apply Qle_lteq. right. apply Qabs_wd.
+        destruct (acc_eqb a' a && str_eqb c' c).
+        - rewrite Qmult_plus_distr_r, Hz. ring.
+        - ring. }
+      destruct (str_eqb c' v || negb (is_AL a') || is_zero q) eqn:Eskip.
+      { apply Hskip; [exact H|]. destruct (acc_eqb a' a && str_eqb c' c) eqn:Em; [|exact I].
+        apply andb_true_iff in Em. destruct Em as [_ Em]. apply str_eqb_eq in Em. subst c'.
+        rewrite HAL' in Eskip. cbn [negb orb] in Eskip. rewrite orb_false_r in Eskip.
+        apply orb_true_iff in Eskip. destruct Eskip as [Ev|Ez].
+        - apply str_eqb_eq in Ev. contradiction.
+        - apply is_zero_value in Ez. rewrite Ez. ring. }
+      destruct (np_price_opt prev c') as [pp|] eqn:Epp; [|discriminate].
+      destruct (np_price_opt cur c') as [cp|] eqn:Ecp; [|discriminate].
+      destruct (is_zero (sub cp pp)) eqn:Ed.
+      { apply Hskip; [exact H|]. destruct (acc_eqb a' a && str_eqb c' c) eqn:Em; [|exact I].
+        apply andb_true_iff in Em. destruct Em as [_ Em]. apply str_eqb_eq in Em. subst c'.
+        unfold price_value. rewrite Epp, Ecp. apply is_zero_value in Ed. rewrite dvalue_sub in Ed. rewrite Ed. ring. }
+      destruct (val_adjustments v date prev cur rest) as [ts'| |] eqn:E; cbn [rbind] in H; try discriminate.
+      injection H as <-. destruct (IH _ eq_refl He' Hp' Hprev Hcur) as [F B].
+      destruct (adjust_pair a' c' (multiply (sub cp pp) q) Ha') as (P1 & P2 & P3).
+      split; [constructor; [exact P1|exact F]|].
+      unfold txns_postings in *. cbn [map concat t_postings]. rewrite cell_count_app, P3.
+      destruct (acc_eqb a' a && str_eqb c' c) eqn:Em.
+      + pose proof Em as Em0.
+        apply andb_true_iff in Em. destruct Em as [_ Em]. apply str_eqb_eq in Em. subst c'.
+        eapply bound_add; [apply bound_one|exact B|].
+        * apply (step_adjust (sub cp pp) q); [apply Pd_sub; [apply Hcur|apply Hprev]; assumption|apply HPq; unfold ematch; cbn [fst snd]; exact Em0].
+        * rewrite cell_value_app, P2. unfold merr, price_value. rewrite Epp, Ecp, dvalue_sub. ring.
+      + eapply bound_add; [apply (bound_zero eps 0); reflexivity|exact B|].
+        rewrite cell_value_app, P2. ring.
+  Qed.
 End Cell.
